@@ -155,8 +155,17 @@ def library_crash(err):
     tail = err[m.start():]
     frames = re.findall(r"^((?:[\w./-]+)\.[\w.()*]+)\(([^\n]*)\)\s*$", tail, re.M)
     frames = [f for f in frames if not f[0].startswith("runtime.")]
-    if not frames or not frames[0][0].startswith(LIB):
+    if not frames:
         return None
+    # the crash is the library's if its innermost frame is a library frame, or (unbounded recursion through a callback
+    # of the harness, e.g. a graph's Out method) if the frame that repeats is one
+    counts = {}
+    for f in frames[:60]:
+        counts[f[0]] = counts.get(f[0], 0) + 1
+    top = max(counts, key=counts.get)
+    if not (frames[0][0].startswith(LIB) or (top.startswith(LIB) and any(f[0].startswith(LIB) for f in frames[:6]))):
+        return None
+    frames = [f for f in frames if f[0].startswith(LIB)]
     shown = "; ".join("%s(%s)" % f for f in frames[:3])
     return "%s inside the library: %s" % (m.group(1), shown[:900])
 
